@@ -20,7 +20,8 @@ structure Inv (s : State) : Prop where
 /-- the guards `BondedOracle` / `EditBridger` must make (regenerated) -/
 def GuardCodeOk : Prop :=
   bondChecksProposal = true ∧ bondChecksOracle = true ∧ bondChecksBridger = true ∧ bondChecksExt = true ∧
-  bondChecksBelow = true ∧ bondChecksAbove = true ∧ editChecksBridger = true
+  bondChecksBelow = true ∧ bondChecksAbove = true ∧ editChecksBridger = true ∧
+  addChecksProposal = true ∧ addChecksBelow = true ∧ addChecksAbove = true ∧ addChecksSlashPaid = true
 
 instance : Decidable GuardCodeOk := by unfold GuardCodeOk; infer_instance
 
@@ -193,14 +194,16 @@ theorem gov_inv (s : State) (l : List Nat) (hi : Inv s) : Inv (govUpdate s l).1 
           · exact ⟨ho.1, by simp, ho.2.2⟩
           · exact ho
 
-theorem add_inv (s : State) (o amt : Nat) (hi : Inv s) : Inv (addDelegate s o amt).1 := by
+theorem add_inv (hc : GuardCodeOk) (s : State) (o amt : Nat) (hi : Inv s) : Inv (addDelegate s o amt).1 := by
+  obtain ⟨_, _, _, _, _, _, _, a1, a2, a3, a4⟩ := hc
   unfold addDelegate
+  simp only [a1, a2, a3, a4, Bool.true_and]
   split
   · exact hi
   · split
     · exact hi
     · rename_i r hr
-      simp only
+      try simp only
       split
       · exact hi
       · split
@@ -441,16 +444,18 @@ theorem step_inv (hs : SlashCodeOk) (hg : GuardCodeOk) (s : State) (op : Op) (hi
   cases op with
   | gov l => exact gov_inv s l hi
   | bond o b e v amt => exact bond_inv hg s o b e v amt hi
-  | add o amt => exact add_inv s o amt hi
+  | add o amt => exact add_inv hg s o amt hi
   | redel o v => exact redel_inv s o v hi
   | editb o b => exact editb_inv hg s o b hi
   | withdraw o => exact withdraw_inv s o hi
   | fund o amt => exact inv_same s _ hi rfl rfl rfl rfl
+  | mint o amt => exact inv_same s _ hi rfl rfl rfl rfl
   | unbond o => exact unbond_inv s o hi
   | mkbatch => simp only [step, mkBatch]; split <;> first | exact hi | exact inv_same s _ hi rfl rfl rfl rfl
   | mkcall => exact inv_same s _ hi rfl rfl rfl rfl
   | conf k n e b sg => exact confirm_inv s k n e b sg hi
-  | observe n => simp only [step, observe]; split <;> first | exact hi | exact inv_same s _ hi rfl rfl rfl rfl
+  | observe n => simp only [step, observe]; repeat' split
+                 all_goals first | exact hi | exact inv_same s _ hi rfl rfl rfl rfl
   | block dt => exact block_inv hs s dt hi
   | valslash v num den => simp only [step, valSlash]; split <;> first | exact hi | exact inv_same s _ hi rfl rfl rfl rfl
 
